@@ -177,9 +177,13 @@ Doc == [
              tripled_prices_globally |-> {<<"WASTE_RETAIL", "6.08">>} \cup GlobalDistribution,
              doubled_prices_globally |-> {<<"WASTE_RETAIL", "10.6">>} \cup GlobalDistribution,
              baseline_globally |-> {<<"WASTE_RETAIL", "24.98">>} \cup GlobalDistribution],
+  \* ("row1p:<column>": one plus that column of the country's data row - the estimates are stored as changes relative to today)
   crop_disruption |-> [zero |-> {<<"ADD_OUTDOOR_GROWING", "True">>, <<"RATIO_CROPS_YEAR1", "1">>, <<"RATIO_CROPS_YEAR10", "1">>},
-                       all_crops_die_instantly |-> {<<"ADD_OUTDOOR_GROWING", "False">>, <<"RATIO_CROPS_YEAR1", "0">>}],
-  grasses |-> [baseline |-> {<<"RATIO_GRASSES_YEAR1", "1">>, <<"RATIO_GRASSES_YEAR10", "1">>}, all_crops_die_instantly |-> {<<"RATIO_GRASSES_YEAR1", "0">>, <<"RATIO_GRASSES_YEAR10", "0">>}] ]
+                       all_crops_die_instantly |-> {<<"ADD_OUTDOOR_GROWING", "False">>, <<"RATIO_CROPS_YEAR1", "0">>},
+                       country_nuclear_winter |-> {<<"ADD_OUTDOOR_GROWING", "True">>} \cup
+                                                  {<<"RATIO_CROPS_YEAR" \o ToString(i), "row1p:crop_reduction_year" \o ToString(i)>> : i \in 1..10}],
+  grasses |-> [baseline |-> {<<"RATIO_GRASSES_YEAR1", "1">>, <<"RATIO_GRASSES_YEAR10", "1">>}, all_crops_die_instantly |-> {<<"RATIO_GRASSES_YEAR1", "0">>, <<"RATIO_GRASSES_YEAR10", "0">>},
+               country_nuclear_winter |-> {<<"RATIO_GRASSES_YEAR" \o ToString(i), "row1p:grasses_reduction_year" \o ToString(i)>> : i \in 1..10}] ]
 
 \* numeric overrides: option key -> the constant it changes ("<species>_head" keys are generated from the species list)
 Species == {"chicken", "rabbit", "duck", "goose", "turkey", "other_rodents", "pig", "meat_goat", "meat_sheep", "camelids", "meat_cattle",
